@@ -76,6 +76,26 @@ PROPS = {
         assumptions=[],
         open=["user-state isolation is checked under C22"],
     ),
+    "C16": dict(
+        title="CLP(FD) soundness (answers satisfy every posted constraint)",
+        props_module="PvModel.Props.C16",
+        rule="FD programs: 1-4 variables, interval and sparse (unsorted, duplicated) domains over -4..=4 with mixed signs placed before/between/after "
+             "the constraints, 1-5 constraints of every kind with operand aliasing and constants, == between variables and to numbers, 1 in 6 with a "
+             "conde of constraint groups, hidden (non-query) FD variables; observable: answer sequence; oracle: brute force over the window — every "
+             "answer is an integer tuple that extends to a solution; non-trivial = >1 solution or >=1 answer; distinct = distinct case lines",
+        trusted=SEARCH_TRUST,
+        assumptions=[],
+        open=["GLOBAL invariant through the re-entrant propagation loop (every posted constraint is stored, in flight or entailed; domains only shrink; no stored constraint is ground at an answer) is NOT yet a theorem: the end-to-end statement is carried by the model/implementation correspondence and the brute-force oracle", "distinctfd ground-exactness is covered by the correspondence only"],
+    ),
+    "C17": dict(
+        title="CLP(FD) labelling completeness and uniqueness",
+        props_module="PvModel.Props.C17",
+        rule="the C16 generator; oracle: brute force over the window projected on the query variables — every solution is returned exactly once per "
+             "disjunction path it satisfies; non-trivial = >1 solution or >=1 answer; distinct = distinct case lines",
+        trusted=SEARCH_TRUST,
+        assumptions=[],
+        open=["GLOBAL invariant through the re-entrant propagation loop (every posted constraint is stored, in flight or entailed; domains only shrink; no stored constraint is ground at an answer) is NOT yet a theorem: the end-to-end statement is carried by the model/implementation correspondence and the brute-force oracle", "distinctfd ground-exactness is covered by the correspondence only"],
+    ),
     "C01": dict(
         title="unification (State::unify vs unifyF)",
         props_module="PvModel.Props.C01",
